@@ -544,3 +544,8 @@ impl Check for C18 {
         ctx.out.hash = case_hash;
     }
 }
+
+/// builds the process-lifetime caches (used by C07 before it installs its counting allocator)
+pub fn warm() {
+    let _ = cfg();
+}
